@@ -197,6 +197,22 @@ def predicate(head, m, res, expected_serial):
     if res["mismatch"] != "-" or int(res["peer_len"]) != len(hdr) + bodylen or int(res["extra"]) != 0:
         bad.append("bytes at the peer are not header ++ body exactly once (peer_len=%s expected=%d first mismatch at %s, extra=%s)"
                    % (res["peer_len"], len(hdr) + bodylen, res["mismatch"], res["extra"]))
+    # the header the peer reads frames exactly this message: byte order flag, type, flags, version 1, body length,
+    # length of the field array, zero padding up to a multiple of 8
+    if len(hdr) >= 16:
+        flag = chr(hdr[0])
+        if flag != m["bo"]:
+            bad.append("byte order flag %r for a %s message" % (flag, m["bo"]))
+        else:
+            flen = u32_at(hdr, 12, flag)
+            if hdr[1] != TYP_OF_HV[m["hv"]] or hdr[2] != m["flags"] or hdr[3] != 1:
+                bad.append("header type/flags/version bytes are %s" % list(hdr[1:4]))
+            if u32_at(hdr, 4, flag) != bodylen:
+                bad.append("the header announces a body of %d bytes, the body has %d" % (u32_at(hdr, 4, flag), bodylen))
+            if len(hdr) != (16 + flen + 7) // 8 * 8 or any(hdr[16 + flen:]):
+                bad.append("header is %d bytes for a field array of %d bytes (must be padded with zeros to a multiple of 8)" % (len(hdr), flen))
+    else:
+        bad.append("header shorter than 16 bytes")
     # descriptors exactly once, in order
     want = ".".join(str(i) for i in range(m["nfds"])) if m["nfds"] else "-"
     if res["fds"] != want or res["ctrunc"] != "0":
